@@ -100,7 +100,11 @@ var sharedValidPalette = func() [64]color.RGBA {
 }()
 
 // sharedOptions: decode options built once, from colours of several models.
-var sharedOptions = []decode.DecodeOption{decode.WithColorAt(2, color.NRGBA{0x10, 0xff, 0x20, 0x90}), decode.WithColorAt(5, color.Gray16{0x8000}), decode.WithColorAt(63, color.RGBA{1, 2, 3, 0xff})}
+var sharedOptions = newSharedOptions()
+
+func newSharedOptions() []decode.DecodeOption {
+	return []decode.DecodeOption{decode.WithColorAt(2, color.NRGBA{0x10, 0xff, 0x20, 0x90}), decode.WithColorAt(5, color.Gray16{0x8000}), decode.WithColorAt(63, color.RGBA{1, 2, 3, 0xff})}
+}
 
 // sharedStops: a caller-supplied stop list that several goroutines hand to the gradient helpers.
 var sharedStops, sharedStopsCopy = func() ([]generate.GradientStop, []generate.GradientStop) {
@@ -483,6 +487,9 @@ func checkConcurrent(c Case) error {
 	palCopy := sharedPalette
 	defPal, defVB, defMeta, magic := ivg.DefaultPalette, ivg.DefaultViewBox, ivg.DefaultMetadata, append([]byte{}, ivg.MagicBytes...)
 
+	// the theme every goroutine of this case shares is built anew for the case: whatever an option
+	// value sets up on first use, it sets up while several goroutines use it
+	sharedOptions = newSharedOptions()
 	before := raceLogSize()
 	old := runtime.GOMAXPROCS(c.Procs)
 	got := make([][]uint64, len(c.Lists))
